@@ -523,21 +523,29 @@ def emit(path, ns, defs, header):
     return False
 
 
-def main():
-    os.makedirs(GEN, exist_ok=True)
+STATUS = {}
+
+def section(name):
+    def deco(fn):
+        def run(ctx):
+            try:
+                fn(ctx)
+                STATUS[name] = 'ok'
+            except ExtractError as e:
+                STATUS[name] = 'error: %s' % e
+            except Exception as e:  # translator crash = loud failure of that section
+                STATUS[name] = 'error: crash %r' % (e,)
+        run.__name__ = fn.__name__
+        return run
+    return deco
+
+@section('Fields')
+def sec_fields(ctx):
     FQ = "src/bls12_381/fq.rs"
     FR = "src/bls12_381/fr.rs"
     FQ2 = "src/bls12_381/fq2.rs"
-    changed = []
-
-    # ---- fields
+    changed = ctx["changed"]
     exp = expanded_source()
-    # unrolled limb-level mul_assign / square / mont_reduce of the derive output -> straight-line IR
-    sys.path.insert(0, os.path.dirname(os.path.abspath(__file__)))
-    import extract_mont
-    manifest.extend(extract_mont.emit(exp, GEN, ExtractError))
-    if getattr(extract_mont, "CHANGED", False):
-        changed.append("MontProg")
     dq = derive_consts(exp, "Fq")
     dr = derive_consts(exp, "Fr")
     q = attr_string(FQ, "PrimeFieldModulus")
@@ -562,6 +570,29 @@ def main():
     if emit(os.path.join(GEN, "Fields.lean"), "PP.Gen", defs, ""):
         changed.append("Fields")
 
+
+
+@section('MontProg')
+def sec_montprog(ctx):
+    FQ = "src/bls12_381/fq.rs"
+    FR = "src/bls12_381/fr.rs"
+    FQ2 = "src/bls12_381/fq2.rs"
+    changed = ctx["changed"]
+    exp = expanded_source()
+    # unrolled limb-level mul_assign / square / mont_reduce of the derive output -> straight-line IR
+    sys.path.insert(0, os.path.dirname(os.path.abspath(__file__)))
+    import extract_mont
+    manifest.extend(extract_mont.emit(exp, GEN, ExtractError))
+    if getattr(extract_mont, "CHANGED", False):
+        changed.append("MontProg")
+
+
+@section('FqConsts')
+def sec_fqconsts(ctx):
+    FQ = "src/bls12_381/fq.rs"
+    FR = "src/bls12_381/fr.rs"
+    FQ2 = "src/bls12_381/fq2.rs"
+    changed = ctx["changed"]
     # ---- raw Montgomery constants of fq.rs / fr.rs / fq2.rs
     defs = []
     for nm in ("B_COEFF", "G1_GENERATOR_X", "G1_GENERATOR_Y", "G2_GENERATOR_X_C0", "G2_GENERATOR_X_C1",
@@ -576,6 +607,14 @@ def main():
     if emit(os.path.join(GEN, "FqConsts.lean"), "PP.Gen", defs, ""):
         changed.append("FqConsts")
 
+
+
+@section('Curve')
+def sec_curve(ctx):
+    FQ = "src/bls12_381/fq.rs"
+    FR = "src/bls12_381/fr.rs"
+    FQ2 = "src/bls12_381/fq2.rs"
+    changed = ctx["changed"]
     # ---- curve-level constants
     MOD = "src/bls12_381/mod.rs"
     EC = "src/bls12_381/ec/mod.rs"
@@ -615,6 +654,14 @@ def main():
     if emit(os.path.join(GEN, "Curve.lean"), "PP.Gen", defs, ""):
         changed.append("Curve")
 
+
+
+@section('Maps')
+def sec_maps(ctx):
+    FQ = "src/bls12_381/fq.rs"
+    FR = "src/bls12_381/fr.rs"
+    FQ2 = "src/bls12_381/fq2.rs"
+    changed = ctx["changed"]
     # ---- SSWU + isogeny constants
     defs = []
     O1 = "src/bls12_381/osswu_map/g1.rs"
@@ -632,6 +679,14 @@ def main():
     if emit(os.path.join(GEN, "Maps.lean"), "PP.Gen", defs, ""):
         changed.append("Maps")
 
+
+
+@section('Chains')
+def sec_chains(ctx):
+    FQ = "src/bls12_381/fq.rs"
+    FR = "src/bls12_381/fr.rs"
+    FQ2 = "src/bls12_381/fq2.rs"
+    changed = ctx["changed"]
     # ---- chains
     defs = []
     CH = "src/bls12_381/osswu_map/chain.rs"
@@ -644,14 +699,32 @@ def main():
     if emit(os.path.join(GEN, "Chains.lean"), "PP.Gen", defs, ""):
         changed.append("Chains")
 
+
+
+@section("Arith")
+def sec_arith(ctx):
+    changed = ctx["changed"]
+    sys.path.insert(0, os.path.dirname(os.path.abspath(__file__)))
+    import extract_arith
+    manifest.extend(extract_arith.emit(REPO, GEN, ExtractError))
+    if getattr(extract_arith, "CHANGED", False):
+        changed.append("Arith")
+
+
+def main():
+    os.makedirs(GEN, exist_ok=True)
+    ctx = {"changed": []}
+    for sec in (sec_fields, sec_montprog, sec_fqconsts, sec_curve, sec_maps, sec_chains, sec_arith):
+        sec(ctx)
+    changed = ctx["changed"]
     with open(os.path.join(VERIF, "gen_manifest.json"), "w") as f:
-        json.dump({"items": manifest}, f, indent=1)
+        json.dump({"items": manifest, "sections": STATUS}, f, indent=1)
+    bad = {k: v for k, v in STATUS.items() if v != "ok"}
     print("extract: %d items, changed modules: %s" % (len(manifest), ",".join(changed) or "none"))
+    for k, v in bad.items():
+        print("EXTRACT-ERROR[%s]: %s" % (k, v))
+    return 3 if bad else 0
 
 
 if __name__ == "__main__":
-    try:
-        main()
-    except ExtractError as e:
-        print("EXTRACT-ERROR: %s" % e)
-        sys.exit(2)
+    sys.exit(main())
